@@ -86,6 +86,8 @@ pub fn front(line: &str) -> String {
             Ok(p) => p,
             Err(e) => return format!("ERR parse 1 {}", hex(&format!("{e}"))),
         };
+        // what the derive does with the pairs before validating them
+        let _ = pest_generator::docs::consume(pairs.clone());
         if let Err(es) = pest_meta::validator::validate_pairs(pairs.clone()) {
             return format!("ERR validate {} {}", es.len(), es.iter().map(|e| hex(&format!("{e}"))).collect::<Vec<_>>().join(","));
         }
